@@ -271,7 +271,7 @@ func (ex *Executor) lenOf(st *State, v Value) *Term {
 	case *MapV:
 		md, _ := ex.mapData(st, x)
 		if md != nil && md.Base == nil {
-			return IntLit(int64(len(liveEntries(ex, st, md))))
+			return mapLen(ex, st, md)
 		}
 		if md != nil && len(md.Upd) == 0 {
 			ln := App("slen", SInt, md.Base)
